@@ -316,7 +316,13 @@ def main():
     payload = json.load(sys.stdin)
     out = []
     for case in payload['cases']:
-        out.append(run_case(case))
+        try:
+            out.append(run_case(case))
+        except BaseException as e:  # noqa  (the oracle itself tripped over what the implementation returned)
+            import traceback
+            out.append({'code': 98, 'acc': None, 'bad': None,
+                        'fails': [{'clause': 'oracle-exception', 'defect': type(e).__name__, 'site': case.get('kind'),
+                                   'got': 'exception', 'detail': traceback.format_exc()[-600:]}]})
     json.dump(out, sys.stdout)
 
 
